@@ -267,6 +267,11 @@ def run_check(pid, tier, replay=None, keep=False):
             if rc == 1 and not merged.get("violations"):
                 merged["violations"] = 1
             json.dump(merged, open(evfile, "w"), indent=1)
+            if tier == "thorough" and not alt:
+                # the per-property evidence file is rewritten by every run; the last thorough run is
+                # also kept aside so that a later quick run does not erase what it covered
+                os.makedirs(os.path.join(VERIF, "evidence-thorough"), exist_ok=True)
+                json.dump(merged, open(os.path.join(VERIF, "evidence-thorough", pid + ".json"), "w"), indent=1)
         if rc == 0:
             err = validate_evidence(evfile, pid, tier, spec["level"]) if merged is not None else "no evidence written"
             if err:
